@@ -19,22 +19,36 @@ fn v(x: u64) -> VarInt {
     VarInt::new(x).unwrap()
 }
 
+/// arbitrary IncrementalValueSync with the given latest value (see IncrementalValueSync::verif_build in ivs.rs);
+/// the nondeterministic values are drawn here, in the harness's own module
+fn any_sync_with_latest<S: ValueToFrameWriter<VarInt>>(latest: u64) -> IncrementalValueSync<VarInt, S> {
+    let nd: [u64; 4] = kani::any();
+    let kind: u8 = kani::any();
+    IncrementalValueSync::verif_build(latest, nd, kind)
+}
+
 /// Arbitrary controller satisfying `icfc_inv` (the only code that touches private fields):
 /// consumed <= acquired <= advertised <= 2^62-1, window: any u32, advertised <= consumed + window;
 /// the embedded IncrementalValueSync in any delivery state.
+fn build_icfc(window: u32, advertised: u64, acquired: u64, consumed: u64, sync: IncrementalValueSync<VarInt, MaxDataToFrameWriter>) -> IncomingConnectionFlowControllerImpl {
+    kani::assume(consumed <= acquired && acquired <= advertised && advertised <= MAXV);
+    kani::assume(advertised as u128 <= consumed as u128 + window as u128);
+    kani::assume(sync.latest_value().as_u64() == advertised);
+    IncomingConnectionFlowControllerImpl {
+        read_window_sync: sync,
+        desired_flow_control_window: window,
+        acquired_window: v(acquired),
+        consumed_window: v(consumed),
+    }
+}
+
 fn any_icfc() -> IncomingConnectionFlowControllerImpl {
     let window: u32 = kani::any();
     let advertised: u64 = kani::any();
     let acquired: u64 = kani::any();
     let consumed: u64 = kani::any();
-    kani::assume(consumed <= acquired && acquired <= advertised && advertised <= MAXV);
-    kani::assume(advertised as u128 <= consumed as u128 + window as u128);
-    IncomingConnectionFlowControllerImpl {
-        read_window_sync: IncrementalValueSync::verif_any_with_latest(advertised),
-        desired_flow_control_window: window,
-        acquired_window: v(acquired),
-        consumed_window: v(consumed),
-    }
+    kani::assume(advertised <= MAXV);
+    build_icfc(window, advertised, acquired, consumed, any_sync_with_latest(advertised))
 }
 
 fn abs(fc: &IncomingConnectionFlowControllerImpl) -> Icfc {
@@ -47,9 +61,11 @@ fn abs(fc: &IncomingConnectionFlowControllerImpl) -> Icfc {
 }
 
 impl IncomingConnectionFlowController {
-    /// arbitrary shared controller satisfying `icfc_inv`
-    pub(crate) fn verif_any() -> Self {
-        Self { inner: Rc::new(RefCell::new(any_icfc())) }
+    /// shared controller satisfying `icfc_inv`, from caller-supplied nondeterministic values
+    /// (window, [advertised, acquired, consumed], IncrementalValueSync::verif_build arguments)
+    pub(crate) fn verif_build(window: u32, s: [u64; 3], nd: [u64; 4], kind: u8) -> Self {
+        kani::assume(s[0] <= MAXV);
+        Self { inner: Rc::new(RefCell::new(build_icfc(window, s[0], s[1], s[2], IncrementalValueSync::verif_build(s[0], nd, kind)))) }
     }
     /// [advertised, acquired, consumed, window]
     pub(crate) fn verif_abs(&self) -> [u64; 4] {
@@ -62,7 +78,7 @@ impl IncomingConnectionFlowController {
     }
 }
 
-//@ harness props=C04 tier=quick level=full timeout=200
+//@ harness props=C04 tier=quick level=full timeout=300
 //@ fn IncomingConnectionFlowControllerImpl::acquire_window
 //@ fn IncomingConnectionFlowControllerImpl::remaining_window
 #[kani::proof]
@@ -99,7 +115,7 @@ fn vq_c04_icfc_acquire_window() {
     kani::cover!(old.window == 0, "reach:zero_window");
 }
 
-//@ harness props=C04 tier=quick level=full timeout=200
+//@ harness props=C04 tier=quick level=full timeout=300
 //@ fn IncomingConnectionFlowControllerImpl::release_window
 #[kani::proof]
 #[kani::unwind(3)]
